@@ -237,7 +237,7 @@ def main(prop="c62"):
     template = os.path.join(work, "template")  # the wallet directory does not exist before the workload: the template is empty
     os.makedirs(template)
     per_worker = max(2, a.cases // a.nworkers)
-    n_workloads = 2 if a.tier == "quick" else 6
+    n_workloads = 1 if a.tier == "quick" else 6
     per_workload = max(2, per_worker // n_workloads)
     for wl in range(n_workloads):
         if a.max_seconds and time.time() - t0 > a.max_seconds:
@@ -287,7 +287,8 @@ def main(prop="c62"):
         cls("writes-in-trace", writes)
         cls("fsyncs-in-trace", syncs)
         # cut selection ------------------------------------------------------------------------------------------------
-        lo = 0 if cfg["focus"] == "atomic" else k0  # C43: wallet creation (descriptor setup) is itself one of the atomic groups
+        # C43: wallet creation with a generated seed (descriptor setup) is itself one of the atomic groups; otherwise cuts start after creation
+        lo = 0 if (cfg["focus"] == "atomic" and any(t.startswith("op-begin create-generated") for _, t in marks)) else k0
         cand = [op.i for op in ops if op.i >= lo and op.kind in ("w", "s", "t", "x", "r", "u", "c")] + [len(ops)]
         cand = sorted(set(cand))
         focus = set()
@@ -305,8 +306,6 @@ def main(prop="c62"):
                 elif f[0] == "op-end" and open_i is not None:
                     focus.update(range(open_i + 1, i + 1))
                     open_i = None
-            if cfg["focus"] == "atomic":
-                focus.update(range(1, k0))
         A = [k for k in cand if k in focus]
         B = [k for k in cand if k not in focus]
         cls("focus-cuts-available", len(A))
